@@ -51,8 +51,14 @@ const impPeer = "peerA" // the name under which I knows E
 func (C17) Generate(rng *rand.Rand, tier string, runIdx uint64) simkit.Plan {
 	p := &Plan{Cfg: Cfg{GCTTL: "15m", GCGran: "30s", Extra: map[string]string{}}}
 	faulty := simkit.Chance(rng, 55)
-	ge := NewGen(rng, DefaultUniverse(), Weights{Kinds: simkit.Chance(rng, 30)})
+	ue := DefaultUniverse()
+	if simkit.Chance(rng, 50) {
+		// node names keep their case in the catalog and on the stream
+		ue.Nodes = []string{"n1", "N2", "n3"}
+	}
+	ge := NewGen(rng, ue, Weights{Kinds: simkit.Chance(rng, 30)})
 	ui := DefaultUniverse()
+	ui.Nodes = ue.Nodes
 	ui.Peers = []string{"", "", "peerB"}
 	gi := NewGen(rng, ui, Weights{Peer: true})
 	pre := func(s Step, side string) Step { s.Op = side + ":" + s.Op; return s }
@@ -98,10 +104,17 @@ func (C17) Generate(rng *rand.Rand, tier string, runIdx uint64) simkit.Plan {
 		}
 	}
 	iOp := func() Step {
-		if simkit.Chance(rng, 70) {
+		// sessions and locks of the importing cluster hang on local checks whose node and check
+		// names the imported rows may share
+		switch simkit.Weighted(rng, []int{55, 20, 15, 10}) {
+		case 0:
 			return pre(gi.Register(), "i")
+		case 1:
+			return pre(gi.Deregister(), "i")
+		case 2:
+			return pre(gi.SessionCreate(), "i")
 		}
-		return pre(gi.Deregister(), "i")
+		return pre(Step{Op: "kv.lock", Key: simkit.Pick(rng, []string{"a", "b"}), Val: "v1", Sess: gi.sess()}, "i")
 	}
 	// prelude (the leader of a connect-enabled cluster initializes the CA configuration first)
 	p.Steps = append(p.Steps, Step{Op: "e:ca.set-config", Text: "72h", Idx: "zero"})
@@ -114,7 +127,7 @@ func (C17) Generate(rng *rand.Rand, tier string, runIdx uint64) simkit.Plan {
 		p.Steps = append(p.Steps, iOp())
 	}
 	subjects := func() string {
-		node := simkit.Pick(rng, []string{"n1", "n2", "n3"})
+		node := simkit.Pick(rng, ue.Nodes)
 		svc := simkit.Pick(rng, []string{"web", "api", "db"}) + simkit.Pick(rng, []string{"", "1", "2"})
 		switch rng.IntN(6) {
 		case 0:
